@@ -1401,8 +1401,38 @@ func hasFuncParam(fn *ssa.Function) bool {
 		sig, ok := t.Underlying().(*types.Signature)
 		return ok && sig.Params().Len() > 0
 	}
+	// … or objects of a module interface whose methods are handed the buffer (`EncodeFields(buf, fields ...Field)` with
+	// `f.EncodeField(buf)` per element): the steps are the methods of whatever the caller hands in. (Codec values –
+	// Encode/Decode – are not steps: calling them is a nested part, modelled as such.)
+	isStepIface := func(t types.Type) bool {
+		if sl, ok := t.Underlying().(*types.Slice); ok {
+			t = sl.Elem()
+		}
+		n, ok := t.(*types.Named)
+		if !ok || n.Obj().Pkg() == nil || !strings.HasPrefix(n.Obj().Pkg().Path(), modulePath) {
+			return false
+		}
+		it, ok := n.Underlying().(*types.Interface)
+		if !ok || it.NumMethods() == 0 {
+			return false
+		}
+		takesBuf := false
+		for i := 0; i < it.NumMethods(); i++ {
+			m := it.Method(i)
+			if m.Name() == "Encode" || m.Name() == "Decode" {
+				return false
+			}
+			sig := m.Type().(*types.Signature)
+			for j := 0; j < sig.Params().Len(); j++ {
+				if isBufferType(sig.Params().At(j).Type()) {
+					takesBuf = true
+				}
+			}
+		}
+		return takesBuf
+	}
 	for _, p := range fn.Params {
-		if isStep(p.Type()) {
+		if isStep(p.Type()) || isStepIface(p.Type()) {
 			return true
 		}
 		// a descriptor record whose fields are the steps (`FrameSpec{Header: func(buf) error {…}, …}`)
